@@ -1257,17 +1257,28 @@ func splitterOrderCase(c *Case) Verdict {
 	w := &WF{Name: "wf", Sources: map[string]string{}}
 	src := Node{Name: "src0", Kind: KFileSrc}
 	nf := 2 + t.Choose(simrt.StGen, 2, 0)
+	// history: the completed workflow is run a second time in place; whatever the
+	// component emits then (nothing, or the parts that exist) must be in order too
+	again := t.Choose(simrt.StGen, 3, 0) == 1
 	for i := 0; i < nf; i++ {
 		p := fmt.Sprintf("lines%d.txt", i)
 		var b strings.Builder
-		for l := 0; l < 1+t.Choose(simrt.StGen, 7, 0); l++ {
+		nl := 1 + t.Choose(simrt.StGen, 7, 0)
+		if again {
+			nl += 9 // (ten parts and more: their numbers do not sort like their names)
+		}
+		for l := 0; l < nl; l++ {
 			fmt.Fprintf(&b, "file %d line %d\n", i, l)
 		}
 		src.Files = append(src.Files, p)
 		w.Sources[p] = b.String()
 	}
 	s := addNode(w, src)
-	sp := addNode(w, Node{Name: "split", Kind: KSplitter, SplitLines: 1 + t.Choose(simrt.StGen, 2, 0), Rec: true,
+	sl := 1 + t.Choose(simrt.StGen, 2, 0)
+	if again {
+		sl = 1
+	}
+	sp := addNode(w, Node{Name: "split", Kind: KSplitter, SplitLines: sl, Rec: true,
 		Ins: []InSpec{{Name: "file", From: []Edge{{s, "out"}}}}, Outs: []OutSpec{{Name: "split_file"}}})
 	oneToOne(w, "use", Edge{sp, "split_file"})
 	w.MaxTasks = 1 + t.Choose(simrt.StGen, 4, 0)
@@ -1282,27 +1293,44 @@ func splitterOrderCase(c *Case) Verdict {
 	if !completedOK(inc) {
 		return Skipped(Viol("no-completion", "", "%s", endDesc(inc)))
 	}
-	rec := inc.RT.Recorded[recKey("split", "split_file", "use", "a")]
 	fileIdx := map[string]int{}
 	for i, f := range src.Files {
 		fileIdx[f] = i
 	}
-	lastFile, lastPart := -1, 0
-	for _, p := range rec {
-		i := strings.LastIndex(p, ".split_")
-		if i < 0 {
-			continue
+	inOrder := func(rec []string, when string) Verdict {
+		lastFile, lastPart := -1, 0
+		for _, p := range rec {
+			i := strings.LastIndex(p, ".split_")
+			if i < 0 {
+				continue
+			}
+			fi, ok := fileIdx[p[:i]]
+			part := 0
+			fmt.Sscanf(p[i+len(".split_"):], "%d", &part)
+			if !ok {
+				continue
+			}
+			if fi < lastFile || (fi == lastFile && part <= lastPart) {
+				return Viol("out-of-order", when, "FileSplitter emitted its parts as %v although the files arrived as %v", rec, src.Files)
+			}
+			lastFile, lastPart = fi, part
 		}
-		fi, ok := fileIdx[p[:i]]
-		part := 0
-		fmt.Sscanf(p[i+len(".split_"):], "%d", &part)
-		if !ok {
-			continue
+		return OK()
+	}
+	if v := inOrder(inc.RT.Recorded[recKey("split", "split_file", "use", "a")], ""); v.Status != "ok" {
+		return v
+	}
+	if again {
+		c.Fault("run-again")
+		inc2 := RunInc(w, c.Tape, inc.Sim.FS.Root, inc.Sim.FS.NextIno, IncOpts{KillAt: -1, Strategy: strategyOf(c.Tape), Trace: c.Trace})
+		c.Absorb(inc2)
+		if v, ok := inconclusiveEnd(inc2); ok {
+			return v
 		}
-		if fi < lastFile || (fi == lastFile && part <= lastPart) {
-			return Viol("out-of-order", "", "FileSplitter emitted its parts as %v although the files arrived as %v", rec, src.Files)
+		if !completedOK(inc2) {
+			return Skipped(Viol("no-completion", "", "second run: %s", endDesc(inc2)))
 		}
-		lastFile, lastPart = fi, part
+		return inOrder(inc2.RT.Recorded[recKey("split", "split_file", "use", "a")], "second-run")
 	}
 	return OK()
 }
